@@ -13,11 +13,12 @@ use std::io::Write as _;
 pub fn run(mode: &str, a: &Args) -> i32 {
     match mode {
         "gen" => generate(a),
+        "pctprobe" => pct_probe_child(),
         _ => { eprintln!("reader: unknown mode {mode}"); 2 }
     }
 }
 
-const ALPHA: [u8; 15] = [0x61, 0xC3, 0xA9, 0xE2, 0x82, 0xAC, 0xF0, 0x9F, 0x98, 0x80, 0xEF, 0xBB, 0xBF, 0x0A, 0xFF];
+const ALPHA: [u8; 16] = [0x61, 0xC3, 0xA9, 0xE2, 0x82, 0xAC, 0xF0, 0x9F, 0x98, 0x80, 0xEF, 0xBB, 0xBF, 0x0A, 0xFF, 0x25];
 
 /// all compositions of `n` (ordered partitions into positive parts), i.e. the 2^(n-1) ways to cut
 pub fn partitions(n: usize) -> Vec<Vec<usize>> {
@@ -233,7 +234,7 @@ fn check_all_targets(o: &mut Oracle, sink: &mut Sink, rng: &mut Rng, bytes: &[u8
         // With a UTF-8 BOM the external decoder transcodes lossily (U+FFFD) — recorded, not judged.
         let sl = serde_saphyr::from_slice::<serde_json::Value>(bytes);
         if sl.is_ok() { o.fail("C09-invalid-utf8-accepted", "from_slice accepted invalid UTF-8", bytes, "ok", "err InvalidUtf8Input"); }
-        if !hang_risk(bytes) {
+        {
             let bom = bytes.starts_with(&[0xEF, 0xBB, 0xBF]);
             for (sname, sizes, rest) in schedules(rng, bytes) {
                 beat(&format!("invalid/{sname}: {}", hex_bytes(bytes)));
@@ -247,8 +248,9 @@ fn check_all_targets(o: &mut Oracle, sink: &mut Sink, rng: &mut Rng, bytes: &[u8
         }
         return;
     };
-    let reader_ok = !hang_risk(bytes);
-    if !reader_ok { sink.count("oracle.skipped_percent_line"); }
+    // (reader input that stops inside a `%` line used to hang the external scanner; fixed by bfd6267)
+    let reader_ok = true;
+    if hang_risk(bytes) { sink.count("oracle.docs_with_percent_line"); }
     let mut scheds = schedules(rng, bytes);
     if exhaustive_parts && bytes.len() <= 10 {
         for (i, p) in partitions(bytes.len()).into_iter().enumerate() { scheds.push((format!("part{i}"), p, usize::MAX)); }
@@ -274,10 +276,11 @@ fn check_all_targets(o: &mut Oracle, sink: &mut Sink, rng: &mut Rng, bytes: &[u8
 fn borrow_checks(o: &mut Oracle, sink: &mut Sink, text: &str, bytes: &[u8], reader_ok: bool) {
     let owned = serde_saphyr::from_str::<String>(text);
     let bor = serde_saphyr::from_str::<&str>(text);
-    // the event stream `from_str` works on: it strips one BOM itself before `LiveEvents::from_str` strips another
-    let seen = text.strip_prefix('\u{feff}').unwrap_or(text);
-    let d = serde_saphyr::verif_hooks::events::live_events_from_str(seen, Some(serde_saphyr::Budget::default()), serde_saphyr::options::AliasLimits::default(), false, 64);
-    let parser_borrowed = d.events.first().map(|e| e.kind == 0 && e.borrowed).unwrap_or(false);
+    // the event stream `from_str` works on: `LiveEvents::from_str` strips one BOM (the entry points no longer
+    // strip another one, fix 7921d77)
+    let d = serde_saphyr::verif_hooks::events::live_events_from_str(text, Some(serde_saphyr::Budget::default()), serde_saphyr::options::AliasLimits::default(), false, 64);
+    // the parser lends the scalar AND the tag leaves the text as it is (`!!binary` decodes: nothing to lend)
+    let parser_borrowed = d.events.first().map(|e| e.kind == 0 && e.borrowed && owned.as_ref().map(|o| *o == e.value).unwrap_or(true)).unwrap_or(false);
     let tagged = d.events.iter().any(|e| e.raw_tag.is_some());
     let iff_id = if tagged { "C09-borrowed-str-ignores-tag" } else { "C09-borrow-iff" };
     match (&owned, &bor) {
@@ -320,7 +323,7 @@ fn corpus_docs(rng: &mut Rng, thorough: bool) -> Vec<Vec<u8>> {
         "é: ü\n", "- €\n- 😀\n", "name: x\nn: 3\n", "name: é€😀\nn: -7\n", "A", "B: 5", "C: {x: y}", "[1, 2, 3]", "[1, 2", "{a: 1", "a: b: c", "\"esc\\u00e9\\n\"",
         "'it''s'", ">\n folded\n text\n", "|\n lit\n eral\n", "k: >-\n  a\n  b\n", "true", "1.5", "-3", "0x1F", "null", "&a x", "- &a x\n- *a\n", "*x",
         "a: 1\r\nb: 2\r\n", "a:\t1\n", "# only comment\n", "a: 1 # c\n", "? a\n: b\n", "!!str 5", "key: 'é'\n", "\"a\\\n  b\"", "- \n- ~\n", "a: |\n  é\n  €\n",
-        "x: \"\\ud83d\\ude00\"", "!!binary aGk=", "!!float 007", "- !!binary aGk=\n- b\n", "!!str plain", "a\u{85}b: 1\n", "a\u{2028}b\n", "\u{feff}", "\u{feff}\u{feff}", "a\u{feff}b\n", "k: \u{feff}\n"] {
+        "x: \"\\ud83d\\ude00\"", "%YAML", "%TAG", "%YAML 1.2", "%YAML 1.2\n---\na\n", "a\n...\n%x", "%TAG ! tag:x,2000:\n--- !a b\n", "a\n%", "%\n", "--- a\n...\n%YAML 1.2\n--- b", "!!binary aGk=", "!!float 007", "- !!binary aGk=\n- b\n", "!!str plain", "a\u{85}b: 1\n", "a\u{2028}b\n", "\u{feff}", "\u{feff}\u{feff}", "a\u{feff}b\n", "k: \u{feff}\n"] {
         v.push(s.as_bytes().to_vec());
         // with one / two byte-order marks in front
         v.push(format!("\u{feff}{s}").into_bytes());
@@ -350,6 +353,68 @@ fn corpus_docs(rng: &mut Rng, thorough: bool) -> Vec<Vec<u8>> {
         v.push(d);
     }
     v
+}
+
+/// child side of the directive-line probe: one hex document per stdin line; parse it through the reader entry
+/// point (whole and byte-wise) and acknowledge it on stdout
+fn pct_probe_child() -> i32 {
+    use std::io::BufRead;
+    let stdin = std::io::stdin();
+    for line in stdin.lock().lines() {
+        let Ok(line) = line else { break };
+        let Some(bytes) = unhex(line.trim()) else { continue };
+        for rest in [usize::MAX, 1usize] {
+            let _ = serde_saphyr::from_reader::<_, serde_json::Value>(SchedReader::new(&bytes, &[], rest, bytes.len(), Tail::Eof));
+        }
+        println!("ok {}", line.trim());
+    }
+    0
+}
+
+/// Reader input that stops inside a `%` line made the external scanner spin for ever before fix bfd6267.
+/// Documents of that class are first sent through a killable child process; returns the first document the
+/// child did not return from within the time limit (then the in-process generators leave the class out).
+fn pct_probe(docs: &[Vec<u8>]) -> Option<Vec<u8>> {
+    use std::io::{BufRead, Write};
+    let exe = std::env::current_exe().ok()?;
+    let mut child = std::process::Command::new(exe).args(["reader", "pctprobe"])
+        .stdin(std::process::Stdio::piped()).stdout(std::process::Stdio::piped()).stderr(std::process::Stdio::null()).spawn().ok()?;
+    {
+        let mut si = child.stdin.take()?;
+        for d in docs { let _ = writeln!(si, "{}", hex_bytes(d)); }
+    }
+    let out = child.stdout.take()?;
+    let (tx, rx) = std::sync::mpsc::channel::<String>();
+    std::thread::spawn(move || { for l in std::io::BufReader::new(out).lines().map_while(Result::ok) { if tx.send(l).is_err() { break; } } });
+    let mut acked = 0usize;
+    loop {
+        match rx.recv_timeout(std::time::Duration::from_secs(8)) {
+            Ok(_) => { acked += 1; if acked == docs.len() { break; } }
+            Err(std::sync::mpsc::RecvTimeoutError::Timeout) => { let _ = child.kill(); let _ = child.wait(); return docs.get(acked).cloned(); }
+            Err(_) => break,
+        }
+    }
+    let _ = child.wait();
+    if acked < docs.len() { docs.get(acked).cloned() } else { None }
+}
+
+/// byte strings whose unterminated last line starts with `%` (a directive line to the scanner), optionally
+/// after other lines, byte-order marks, and with multi-byte / malformed tails
+fn pct_tail_bytes(rng: &mut Rng) -> Vec<u8> {
+    let mut v = Vec::new();
+    for _ in 0..rng.below(3) {
+        v.extend_from_slice(*rng.pick(&[&b"a: 1\n"[..], b"%YAML 1.2\n", b"---\n", b"x\r", "é\n".as_bytes(), b"\n", b"%\n"]));
+    }
+    for _ in 0..rng.below(3) { if rng.chance(1, 3) { v.extend_from_slice("\u{feff}".as_bytes()); } }
+    v.extend_from_slice(*rng.pick(&[&b"%"[..], b"%YAML", b"%YAML 1.2", b"%TAG ! tag:x,2000:", b"%x y", "%é€".as_bytes(), b"%%", b"% "]));
+    match rng.below(6) { 0 => v.push(0xFF), 1 => v.extend_from_slice(&[0xE2, 0x82]), 2 => v.extend_from_slice(&[0xC3]), _ => {} }
+    v
+}
+
+/// the unterminated last line of the decoded prefix starts with `%` (byte-order marks in front ignored)
+fn last_line_is_directive(chars: &[char]) -> bool {
+    let start = chars.iter().rposition(|c| *c == '\n' || *c == '\r').map(|i| i + 1).unwrap_or(0);
+    chars[start..].iter().find(|c| **c != '\u{feff}') == Some(&'%')
 }
 
 fn generate(a: &Args) -> i32 {
@@ -400,6 +465,30 @@ fn generate(a: &Args) -> i32 {
         if steps.iter().filter(|x| x.ch.is_some()).count() >= 2 { nontrivial += 1; }
     }
 
+    // schedules that stop inside a `%` line: by end of input, by a failing read, by the byte cap, inside a
+    // code point (fix bfd6267: exactly one synthetic line break, then None for ever)
+    let npct = if a.thorough { 20000 } else { 2500 };
+    for i in 0..npct {
+        beat("cc pct");
+        let bytes = pct_tail_bytes(&mut rng);
+        let mp = 1 + rng.below(4);
+        let part = rand_partition(&mut rng, bytes.len(), mp);
+        let mut items = data_items(&bytes, &part);
+        let mut cap = None;
+        match i % 5 {
+            0 => sink.count("cc.pct.eof"),
+            1 => { items.push(RItem::Fail(*rng.pick(&[0u8, 1, 5, 7]))); if rng.chance(1, 2) { items.push(RItem::Data(b"more\n%z".to_vec())); } sink.count("cc.pct.fail_after"); }
+            2 => { let p = rng.below(items.len() + 1); items.insert(p, RItem::Fail(*rng.pick(&[0u8, 1, 2, 7]))); sink.count("cc.pct.fail_inside"); }
+            3 => { cap = Some(rng.below(bytes.len() + 2)); sink.count("cc.pct.cap"); }
+            _ => { let p = rng.below(items.len() + 1); items.insert(p, RItem::Data(vec![])); sink.count("cc.pct.empty_read"); }
+        }
+        let steps = cc_case(&mut sink, cap, 4, &items);
+        // distribution: does the run contain a line break that was not in the input (the synthetic one)?
+        let produced: String = steps.iter().filter_map(|x| x.ch).collect();
+        let breaks_in = bytes.iter().filter(|b| **b == b'\n').count() + items.iter().map(|i| match i { RItem::Data(d) if d == b"more\n%z" => 1, _ => 0 }).sum::<usize>();
+        if produced.matches('\n').count() > breaks_in { sink.count("cc.pct.synthetic_break_emitted"); nontrivial += 1; }
+    }
+
     // ---- (i) RingReader: interleavings of read / get_recent
     let nring = if a.thorough { 4000 } else { 400 };
     for i in 0..nring {
@@ -426,16 +515,28 @@ fn generate(a: &Args) -> i32 {
     let oracle_file = std::fs::File::create(format!("{}/reader.oracle.jsonl", a.out)).unwrap();
     let mut o = Oracle { out: std::io::BufWriter::new(oracle_file), fails: 0, per_id: BTreeMap::new() };
     let docs = corpus_docs(&mut rng, a.thorough);
+    // the class "a line starts with `%`" goes through a killable child first (regression guard for fix bfd6267)
+    let probe: Vec<Vec<u8>> = docs.iter().filter(|d| hang_risk(d)).cloned()
+        .chain(["%", "%Y", "a\n%", "%%", "% ", "\n%a", "[%", "%\u{e9}"].iter().map(|s| s.as_bytes().to_vec())).collect();
+    sink.count("oracle.pct_probe_docs");
+    let pct_safe = match pct_probe(&probe) {
+        None => true,
+        Some(d) => {
+            o.fail("C09-reader-hangs-in-directive-line", "from_reader does not return (killed after 8 s in a child process)", &d, "no result", &res_tok(&serde_saphyr::from_str::<serde_json::Value>(&String::from_utf8_lossy(&d))));
+            false
+        }
+    };
     let mut short_budget = if a.thorough { 200 } else { 30 };
     for d in &docs {
         let exhaustive = d.len() <= 10 && short_budget > 0;
         if exhaustive { short_budget -= 1; sink.count("oracle.docs_all_partitions"); }
         sink.count("oracle.docs");
         if d.len() > 2 { nontrivial += 1; }
+        if !pct_safe && hang_risk(d) { sink.count("oracle.skipped_percent_line"); continue; }
         check_all_targets(&mut o, &mut sink, &mut rng, d, exhaustive);
     }
     // every short document over the indicator alphabet: str vs reader (whole and 1-byte chunks), untyped target
-    let ind: Vec<char> = "!&*a:- \n[]{}'\"|>#,?~.".chars().collect();
+    let ind: Vec<char> = "!&*a:- \n[]{}'\"|>#,?~.%".chars().collect();
     let maxl = if a.thorough { 4 } else { 3 };
     let mut cur: Vec<String> = vec![String::new()];
     for _ in 0..maxl {
@@ -443,7 +544,7 @@ fn generate(a: &Args) -> i32 {
         for c in &cur { for ch in &ind { let mut t = c.clone(); t.push(*ch); next.push(t); } }
         for t in &next {
             let bytes = t.as_bytes();
-            if hang_risk(bytes) { continue; }
+            if hang_risk(bytes) { if !pct_safe { continue; } sink.count("oracle.short_docs_with_percent_line"); }
             sink.count("oracle.short_indicator_docs");
             let sres = res_tok(&serde_saphyr::from_str::<serde_json::Value>(t));
             for (sname, rest) in [("whole", usize::MAX), ("1", 1usize)] {
@@ -462,7 +563,7 @@ fn generate(a: &Args) -> i32 {
     sink.finish(&a.out, "reader", serde_json::json!({
         "distinct_nontrivial": nontrivial,
         "oracle_failures": o.fails,
-        "rule": "(i) ChunkedChars hook over a schedule reader: ALL byte strings of length <= 4 over {61,C3,A9,E2,82,AC,F0,9F,98,80,EF,BB,BF,0A,FF} x all partitions into read results (quick: all partitions up to length 3, one random partition per length-4 string), random strings up to ~28 bytes of multi-byte text with malformed pieces x random partitions x inserted failing reads (kinds Other/UnexpectedEof/Interrupted/InvalidData/BrokenPipe/ConnectionReset), empty reads and byte caps; compared per `next` call: character, recorded error kind, and bytes pulled. RingReader hook: random read/get_recent interleavings over short and 3-9 KB inputs (ring eviction, read-ahead cap), compared: bytes returned, snapshot offsets/line/bytes, offset and read-ahead after every op. (ii) oracle: hand corpus + generated documents (valid/invalid, ASCII/multi-byte, 0/1/2 BOMs, damaged, invalid UTF-8) x chunk schedules (whole, 1, 2, 3, 7 bytes, random, cuts inside every code point and after every break/`-`/`:`, all 2^(n-1) partitions for n <= 10) x 12 owned target types: from_str = from_slice = closure helpers = from_reader = closure reader helper (value or error kind+line+column); borrowed &str iff parser-borrowed; reader never lends. Inputs with a line starting with `%` are not sent to the reader entry points (known non-termination of the external scanner). Non-trivial = op cases producing a multi-byte character or >= 2 characters, long ring inputs, oracle documents longer than 2 bytes.",
+        "rule": "(i) ChunkedChars hook over a schedule reader: ALL byte strings of length <= 4 over {61,C3,A9,E2,82,AC,F0,9F,98,80,EF,BB,BF,0A,FF,25} x all partitions into read results (quick: all partitions up to length 3, one random partition per length-4 string), random strings up to ~28 bytes of multi-byte text with malformed pieces x random partitions x inserted failing reads (kinds Other/UnexpectedEof/Interrupted/InvalidData/BrokenPipe/ConnectionReset), empty reads and byte caps; 2500 (thorough 20000) schedules that stop inside a line starting with `%` (end of input / failing read after or inside the line / byte cap / empty read, with BOMs, earlier lines, multi-byte and truncated tails; counted as cc.pct.*); compared per `next` call: character, recorded error kind, and bytes pulled. RingReader hook: random read/get_recent interleavings over short and 3-9 KB inputs (ring eviction, read-ahead cap), compared: bytes returned, snapshot offsets/line/bytes, offset and read-ahead after every op. (ii) oracle: hand corpus + generated documents (valid/invalid, ASCII/multi-byte, 0/1/2 BOMs, damaged, invalid UTF-8) x chunk schedules (whole, 1, 2, 3, 7 bytes, random, cuts inside every code point and after every break/`-`/`:`, all 2^(n-1) partitions for n <= 10) x 12 owned target types: from_str = from_slice = closure helpers = from_reader = closure reader helper (value or error kind+line+column); borrowed &str iff parser-borrowed; reader never lends. Inputs with lines starting with `%` (directives, also unterminated at the end of input) are included since fix bfd6267; a watchdog kills the run if a case does not return. Non-trivial = op cases producing a multi-byte character or >= 2 characters, long ring inputs, oracle documents longer than 2 bytes.",
     }));
     0
 }
